@@ -183,6 +183,9 @@ def data_url_pairing(ctx, rule):
     dec = [q.shape(cons.expr_of_call(t)) for bi, t in cons.calls() if q.nice(t.get("callee")) == "Encoding::decode"]
     ctx.check(len(dec) == 1 and dec[0].startswith("Encoding::decode(data_encoding::BASE64,str::as_bytes("), rule, cons.path, "consumer:alphabet", "the payload is decoded with the standard padded alphabet (data_encoding BASE64)", detail=str(dec)[:200])
     encs = [q.shape(prod.expr_of_call(t)) for bi, t in q.calls_to(prod, "encoder::encode")]
+    if not encs:
+        # ... through the map's own to_writer (which is encode, C01.R6w / C03.R6)
+        encs = [q.shape(prod.expr_of_call(t)).replace("SourceMap::to_writer(", "encoder::encode(", 1) for bi, t in q.calls_to(prod, "types::SourceMap::to_writer")]
     ctx.check(len(encs) == 1 and encs[0].startswith("encoder::encode(arg1,"), rule, prod.path, "producer:payload", "the payload is the serialised map")
     fails = [bi for bi, si in q.err_variant_constructions(cons, "InvalidDataUrl")]
     ctx.check(bool(fails), rule, cons.path, "InvalidDataUrl", "other URLs are rejected with InvalidDataUrl")
@@ -328,7 +331,7 @@ def hermes_state(ctx, rule):
         ctx.check(bool(nonempty) and loop_passes(b, nonempty[0], inner_h, pushes), rule, fn, "segment:no-skip", "every non-empty segment that parses contributes an offset (no segment is dropped)")
         ctx.check(len(pcalls) == 1 and any(c.bb == empt[0] and c.truth() is False for c in q.path_conditions(b, pcalls[0])), rule, fn, "segment:empty-skipped",
                   "an empty segment is skipped, not parsed (parsing it would fail and disable the whole function map)")
-    its = [sh for l in sorted(b.var_names) for sh, _, _ in q.def_shapes(b, l, roles) if sh == "Iterator::copied(slice::iter(^var:Vec<i64>))"]
+    its = [sh for l in sorted(b.var_names) for sh, _, _ in q.def_shapes(b, l, roles) if sh == "slice::iter(^var:Vec<i64>)"]
     ctx.check(len(its) == 1, rule, fn, "nums-iter", "the values are read in order from the parsed segment")
     parse = [q.shape(b.expr_of_call(t)) for bi, t in b.calls() if q.nice(t.get("callee")) == "Result::ok"]
     parse = [q.shape(b.expr_of_call(t), roles) for bi, t in b.calls() if q.nice(t.get("callee")) == "Result::ok"]
@@ -378,7 +381,9 @@ def hermes_lookup(ctx, rule):
         if isinstance(x, Agg) and x.ak == "closure":
             cl = ctx.facts.body(x.closure)
     from rules.typesrules import closure_ret_shape
-    ctx.check(cl is not None and closure_ret_shape(cl) == ["tuple(arg2.line,arg2.column)"], rule, fn, "glb:order", "offsets are ordered by (line, column), the same order as the key")
+    ok = cl is not None and closure_ret_shape(cl) == ["tuple(arg2.line,arg2.column)"]
+    ok = ok or q.shape(c.args[2], roles) == "\u03bb(tuple(p1.line,p1.column))"  # the same key as a simple closure or fn item
+    ctx.check(ok, rule, fn, "glb:order", "offsets are ordered by (line, column), the same order as the key", detail=q.shape(c.args[2], roles))
     nm = [q.shape(b.expr_of_call(t), roles) for bi, t in b.calls() if q.nice(t.get("callee")) == "slice::get" and ".names" in q.shape(b.expr_of_call(t), roles)]
     ok = len(nm) == 1 and q.wild("slice::get(fm.names,cast<usize>(try(utils::greatest_lower_bound(*)).1.name_index))", nm[0])
     ctx.check(ok, rule, fn, "name", "the name is names.get(mapping.name_index) (non-panicking)", detail=str(nm)[:200])
